@@ -54,3 +54,28 @@ PROPS['C19'] = dict(
     tolerances='none (bitwise equality with the reference model)',
     assumptions=['64-bit unsigned arithmetic in the reference model'],
 )
+
+KERNEL_ASSUME = ['long double products and Eigen 3.4 dense eigen-solvers (long double) as the reference']
+
+PROPS['C08'] = dict(
+    level='exploration',
+    technique='rapidcheck generation of element-wise drawn Hessenberg / tridiagonal matrices and shifts; every identity recomputed in long double from the Q the class exposes',
+    level_text='Random search with integrated shrinking over (class, scalar type, n <= 24, five entry patterns incl. exact-zero / negligible / '
+               'Taylor-branch subdiagonals and scales 1e-100..1e100, four shift kinds incl. exact eigenvalues) checking Q orthogonal, R triangular with '
+               'exact zeros, QR = H - sI, matrix_QtHQ = Q\'HQ with the documented shape, every apply_* overload against the explicit product, and the '
+               'double-shift first-column condition, all to 64 n eps (||H||+|s|). Sampling, not a proof; the class histogram in evidence shows what was reached.',
+    level_note='Reference products are formed in long double (for the long double instantiation the reference has the same precision; the asserted constant 64 '
+               'leaves >15x headroom over the worst ratio observed). DoubleShiftQR is generated for n >= 3 and the other two for n >= 2 (the sizes their callers can produce).',
+    units=[dict(name='c08', src='c08_qr.cpp')],
+    runs=dict(
+        quick=[dict(unit='c08', cases=5000, workers=4)],
+        thorough=[dict(unit='c08', cases=100000, workers='all')],
+    ),
+    min=dict(quick=dict(cases=15000, nontrivial=8000, classes={'DoubleShiftQR/double': 300, 'TridiagQR/float': 300, 'negligible_subdiagonal': 500, 'exact_eigenvalue_shift': 500, 'first_column_checked': 500}),
+             thorough=dict(cases=1000000, nontrivial=500000)),
+    rule='case = (class in {UpperHessenbergQR, TridiagQR, DoubleShiftQR}, scalar in {float,double,long double}, n, entry pattern, entries drawn one by one, '
+         'subdiagonal treatment, content of the part documented as ignored, shift kind / shifts, constructor path, apply-operand shape). Non-trivial = at least one nonzero '
+         'subdiagonal entry (otherwise Q is a signed identity); distinct = 64-bit hash of the draw log.',
+    tolerances='all identities: 64*n*eps*(||H||_F+|s|) resp. 64*n*eps*||Y||_F; R below-diagonal and UpperHessenbergQR/TridiagQR band zeros exact; first column: sin(angle) <= 64 n eps (||H||^2+|s|||H||+|t|)/||Me1||, asserted when ||Me1|| >= sqrt(eps)*scale',
+    assumptions=KERNEL_ASSUME,
+)
